@@ -456,6 +456,27 @@ def run(prog, rep, tier):
     # ---------------- R3.2 (a) text reader
     fb = prog.body("s4lib::readers::syslinereader::SyslineReader::find_sysline_between_datetime_filters")
     cs = [c for c in fb.live_calls() if c.d in preds]
+    if len(cs) > 1:
+        # the deciding call is the last one (no other predicate call can follow it); an earlier one is
+        # tolerated when its verdict is only compared with a constant other than InRange, i.e. it can
+        # only affect what happens to messages *outside* the window (e.g. "past the window: look further")
+        finals_ = [c_ for c_ in cs if not any(o_ is not c_ and o_.bb in fb.reachable_after(c_.bb) and c_.bb not in fb.reachable_after(o_.bb) for o_ in cs)]
+        extras_ = [c_ for c_ in cs if c_ not in finals_]
+        ok_extra = len(finals_) == 1
+        for e_ in extras_:
+            cmp_ = [q_ for q_ in fb.live_calls() if q_.d.split("::")[-1] in ("eq", "ne") and any(x_[0] == "call" and x_[1] == e_.bb for a_ in q_.args for x_ in fb.origins(a_))]
+            consts_ = set()
+            for q_ in cmp_:
+                for a_ in q_.args:
+                    for x_ in fb.origins(a_):
+                        if x_[0] == "const":
+                            consts_.add(str(x_[1]))
+            if not cmp_ or any("InRange" in k_ for k_ in consts_):
+                ok_extra = False
+            rep.examined(R32, "%s|extra-predicate-use@%d" % (fb.path, e_.line), sample={"line": e_.line, "compared_with": sorted(consts_)[:3]})
+        if not ok_extra:
+            raise CheckerError("find_sysline_between_datetime_filters: %d window predicate calls" % len(cs))
+        cs = finals_
     if len(cs) != 1:
         raise CheckerError("find_sysline_between_datetime_filters: %d window predicate calls" % len(cs))
     c = cs[0]
